@@ -43,7 +43,10 @@ MultiCases == {[k |-> "multi", faults |-> F] : F \in {G \in SUBSET FaultClasses 
 \* C07: an unknown element between the sub-elements of every block that admits optional sub-elements
 Payloads == {"kw0", "kw_num", "kw_str_ident", "kw3", "blk_empty", "blk_scalars", "blk_nested1", "blk_nested2",
              "blk_known_inside", "blk_comment", "kw_comment", "blk_unbalanced_inner_kw"}
-SkipCases(e) == {[k |-> "skip", e |-> e, nkids |-> n, at |-> a, payload |-> p] : n \in 0..2, a \in 0..2, p \in Payloads}
+SkipCases(e) == {[k |-> "skip", e |-> e, nkids |-> n, at |-> a, payload |-> p, next |-> "-"] : n \in 0..2, a \in 0..2, p \in Payloads}
+                \* the stop list: a keyword payload directly in front of EVERY sub-element of the block
+                \cup {[k |-> "skip", e |-> e, nkids |-> 1, at |-> 0, payload |-> p, next |-> Elem[e].kids[i].tag] :
+                         i \in 1..Len(Elem[e].kids), p \in {"kw0", "kw_num"}}
 
 \* C01 / C02: value classes per parameter type (the literal catalogue; the driver computes the concrete
 \* text, e.g. "max+1" of uint = 65536, and which types it fits - TLC integers are 32 bit)
